@@ -30,11 +30,16 @@ Section Oracle.
   Hypothesis status_map : forallb (fun k => status_of k =? spec_status k) security_controls = true.
   Hypothesis idna_flag : localhost_maps_idna = true.
   Hypothesis zone_flag : localhost_strips_zone = true.
+  Hypothesis dot_flag : localhost_strips_dot = true.
+  Hypothesis deny_dot_flag : deny_matches_undotted_form = true.
   Hypothesis unspec_flag : localhost_checks_unspecified = true.
   Hypothesis deny_flag : deny_matches_ascii_form = true.
   Hypothesis challenge : forall cfg,
     h_values (b "Proxy-Authenticate") (written_error_headers cfg CAuth) = [challenge_value cfg].
   Hypothesis challenge_basic : forall cfg, has_prefix (challenge_value cfg) (b "Basic") = true.
+
+  Lemma forms_eq idna hn : deny_forms_checked idna hn = deny_forms idna hn.
+  Proof. unfold deny_forms_checked, deny_forms. rewrite deny_flag, deny_dot_flag. reflexivity. Qed.
 
   Lemma line_exact_nil u p : line_exact u p [] = false.
   Proof. unfold line_exact, parse_basic_auth. rewrite prefix. reflexivity. Qed.
@@ -74,9 +79,9 @@ Section Oracle.
       { apply all_lines_authenticated. rewrite L. exact A. }
       congruence.
     - apply negb_false_iff in Hp.
-      rewrite (localhost_sound _ _ _ idna_flag zone_flag Hp). reflexivity.
+      rewrite (localhost_sound _ _ _ idna_flag dot_flag zone_flag Hp). reflexivity.
     - destruct (c_deny cfg) as [m|]; [|discriminate].
-      apply negb_false_iff in Hp. rewrite deny_flag in Hp. rewrite andb_true_l in Hp. rewrite Hp. reflexivity.
+      apply negb_false_iff in Hp. rewrite forms_eq in Hp. rewrite Hp. reflexivity.
     - destruct Hk as [H|[H|[H|[H|[]]]]]; discriminate.
   Qed.
 
@@ -91,9 +96,9 @@ Section Oracle.
       rewrite (authenticated_some_line _ _ _ Hp). reflexivity.
     - apply negb_true_iff in Hp.
       destruct (target_is_local (c_idna cfg) (c_aliases cfg) (url_hostname (r_host q))) eqn:T; [|reflexivity].
-      rewrite (localhost_complete _ _ _ idna_flag zone_flag unspec_flag T) in Hp. discriminate.
+      rewrite (localhost_complete _ _ _ idna_flag dot_flag zone_flag unspec_flag T) in Hp. discriminate.
     - destruct (c_deny cfg) as [m|]; [|reflexivity].
-      apply negb_true_iff in Hp. rewrite deny_flag in Hp. rewrite andb_true_l in Hp. exact Hp.
+      apply negb_true_iff in Hp. rewrite forms_eq in Hp. exact Hp.
     - reflexivity.
   Qed.
 
@@ -117,14 +122,16 @@ Section Oracle.
         destruct (enabled cfg k) eqn:He; [|reflexivity]. simpl.
         specialize (Hall k Hk He).
         destruct k; try reflexivity.
-        - (* CLocal *) simpl in Hall. apply negb_true_iff in Hall.
+        - (* CLocal *) cbn [passes] in Hall. apply negb_true_iff in Hall.
           assert (target_is_local (c_idna cfg) (c_aliases cfg) (url_hostname (r_host q)) = false) as T.
           { destruct (target_is_local _ _ _) eqn:T; [|reflexivity].
-            rewrite (localhost_complete _ _ _ idna_flag zone_flag unspec_flag T) in Hall. discriminate. }
+            rewrite (localhost_complete _ _ _ idna_flag dot_flag zone_flag unspec_flag T) in Hall. discriminate. }
           unfold o. destruct (c_mitm cfg && is_connect q); simpl; [reflexivity | rewrite T; reflexivity].
-        - (* CDeny *) simpl in Hall. destruct (c_deny cfg) as [m|]; [|reflexivity].
-          apply negb_true_iff in Hall. apply orb_false_iff in Hall as [Hm _].
-          unfold o. destruct (c_mitm cfg && is_connect q); simpl; [reflexivity | rewrite Hm; reflexivity]. }
+        - (* CDeny *) cbn [passes] in Hall. destruct (c_deny cfg) as [m|]; [|reflexivity].
+          apply negb_true_iff in Hall. rewrite forms_eq in Hall. unfold deny_forms in Hall. cbn [existsb] in Hall.
+          apply orb_false_iff in Hall as [Hm Hall]. apply orb_false_iff in Hall as [_ Hall].
+          apply orb_false_iff in Hall as [Hd _].
+          unfold o. destruct (c_mitm cfg && is_connect q); simpl; [reflexivity | rewrite Hm, Hd; reflexivity]. }
       assert (existsb (fails_certainly cfg e q o) security_controls = false) as ->.
       { apply not_true_is_false. intro H. apply existsb_exists in H as (k & Hk & Hf).
         rewrite (NF k Hk) in Hf. discriminate. }
